@@ -4,13 +4,13 @@
    alternative of that regex is a single character, so replace_all visits the characters
    left to right and rewrites each one independently: a flat_map over a replacement table.
    The `_ => error_exit(..)` arm is unreachable (the match arms cover the alternatives).
-   The tables below are the literal tables of the CURRENT source; they are parameters of
-   `convert`, so generated tables can be plugged in later.
+   The tables are parameters of `convert` and are taken from gen/GlobGen.v, which is
+   regenerated from the Rust source on every run.
 
-   Known defects visible in the tables (kept, not repaired):
-     F24  `+ { } | \` are regex meta characters and are left unescaped by both tables;
-     F25  `*`/`?`/`%`/`_` become `.*`/`.`, and `.` does not match U+000A;
-     F26  LIKE maps `?` to `.?` (optional any char) although `?` is not a LIKE wildcard. *)
+   History (repaired in the current source, see the regression lemmas in proofs/GlobProofs.v):
+     F24  `+ { } | \` used to be left unescaped by both tables; they are escaped now;
+     F25  `.` did not match U+000A under the old `^(?i)` prefix; the prefix is `^(?is)` now;
+     F26  LIKE used to map `?` to `.?`; it maps it to `\?` now. *)
 From Coq Require Import List NArith Bool String.
 From FS Require Import lib.Str lib.Regex lib.RegexParse gen.GlobGen.
 Import ListNotations.
@@ -28,7 +28,7 @@ Definition subst1 (tbl : repl_table) (c : N) : str :=
   match lookup c tbl with Some r => r | None => [c] end.
 
 Definition convert (tbl : repl_table) (x : str) : str :=
-  s "^(?i)" ++ flat_map (subst1 tbl) x ++ s "$".
+  s "^(?is)" ++ flat_map (subst1 tbl) x ++ s "$".
 
 (* pub fn is_glob(s) = s.contains("*") || s.contains('?') *)
 Definition is_glob (x : str) : bool := existsb (fun c => contains_char c x) is_glob_chars.
@@ -41,11 +41,11 @@ Definition like_table : repl_table := FS.gen.GlobGen.like_table.
 Definition convert_glob_to_pattern : str -> str := convert glob_table.
 Definition convert_like_to_pattern : str -> str := convert like_table.
 
-Example conv_glob_ex : convert_glob_to_pattern (s "a*.t?t[1]") = s "^(?i)a.*\.t.t\[1\]$".
+Example conv_glob_ex : convert_glob_to_pattern (s "a*.t?t[1]") = s "^(?is)a.*\.t.t\[1\]$".
 Proof. vm_compute. reflexivity. Qed.
-Example conv_like_ex : convert_like_to_pattern (s "a%.t_t*?") = s "^(?i)a.*\.t.t\*.?$".
+Example conv_like_ex : convert_like_to_pattern (s "a%.t_t*?") = s "^(?is)a.*\.t.t\*\?$".
 Proof. vm_compute. reflexivity. Qed.
-Example conv_glob_unescaped : convert_glob_to_pattern (s "a+{1}|\") = s "^(?i)a+{1}|\$".   (* F24 *)
+Example conv_glob_escaped : convert_glob_to_pattern (s "a+{1}|\") = s "^(?is)a\+\{1\}\|\\$".   (* F24 fixed *)
 Proof. vm_compute. reflexivity. Qed.
 
 (* ---- the string operators of Searcher::conforms (searcher.rs, VariantType::String arm) ----
@@ -66,7 +66,7 @@ Definition notlike_verdict (val subj : str) : option bool :=
 
 (* the parts of the generated file that `convert` hard-wires: re-checked on every run *)
 Lemma gen_shape_ok :
-  glob_prefix = s "^(?i)" /\ glob_suffix = s "$" /\ like_prefix = s "^(?i)" /\ like_suffix = s "$" /\
+  glob_prefix = s "^(?is)" /\ glob_suffix = s "$" /\ like_prefix = s "^(?is)" /\ like_suffix = s "$" /\
   glob_error_chars = [] /\ like_error_chars = [] /\ is_glob_chars = [42; 63].
 Proof. repeat split; reflexivity. Qed.
 
